@@ -180,11 +180,9 @@ class NetworkXPropertyGraph(ABCPropertyGraph, NetworkXMixin):
 
         # since this is not a copy, after that we modify live graph
         node_props = self.storage.get_graph(self.graph_id).nodes[self._find_node(node_id=node_id)]
+        # unsetting a property that is not set is a no-op (as REMOVE is in the Neo4j backend)
         if prop_name in node_props.keys():
             node_props.pop(prop_name)
-        else:
-            raise PropertyGraphQueryException(graph_id=self.graph_id, node_id=node_id,
-                                              msg=f"Unable to unset property {prop_name}")
 
     def update_nodes_property(self, *, prop_name: str, prop_val: Any) -> None:
         """
